@@ -42,6 +42,7 @@ import XotModel.Lemmas.FparseHistStep
 import XotModel.Lemmas.ParseWitness
 import XotModel.Lemmas.FframeGeneralAll
 import XotModel.Lemmas.FframeRestAll
+import XotModel.Lemmas.FframeRestMoved
 
 namespace XotModel.Props
 open XotModel XotModel.Spec
@@ -1702,7 +1703,10 @@ end XotModel.Props
   node the rule selects, and the parent of `n` is outside the subtree of `n`
   (`C05_writtenParents_misses_parent_of_stripped_text`); `extraWritten` adds the parent.
 
-  NOT in `framed2`: create_missing_prefixes, deduplicate_namespaces. -/
+  NOT in `framed2`: create_missing_prefixes, deduplicate_namespaces.
+
+  Inside the moved subtree: `C05_moved_subtree_intact` (generic: the node carries the same subtree in both forests)
+  and its instance `C05_frame_general_moved_detach`.  The other moves are not instantiated. -/
 
 namespace XotModel.Props
 open XotModel Spec
@@ -1817,6 +1821,42 @@ theorem C05_writtenParents_misses_parent_of_stripped_text :
     (c.run s).1.forest.kidHandles 3 = [4] ∧
     d.framed2 = true ∧ d.writtenParents2 s.forest = [0, 1, 2] ∧ (d.run s).1.forest.kidHandles 0 = [2] ∧
     (d.run s).1.forest.kidHandles 3 = [4] ∧ (d.run s).1.forest.value? 4 = s.forest.value? 4 := by
+  decide +kernel
+
+/-- ⟦C05_moved_subtree_intact⟧ INSIDE the moved subtree, the generic step: two forests with distinct handles in
+    which the node `c` carries the SAME subtree `t` — every node of `t` (the node `c` itself included) is live in the
+    second with the same value and the same children. -/
+theorem C05_moved_subtree_intact {f f' : Forest} (nd : f.allHandles.Nodup) (nd' : f'.allHandles.Nodup) {c : Nat}
+    {t : HTree} (hg : f.get? c = some t) (hg' : f'.get? c = some t) {h : Nat} (hm : h ∈ f.subtreeHandles c) :
+    f'.isLive h = true ∧ f'.value? h = f.value? h ∧ f'.kidHandles h = f.kidHandles h := by
+  have hz : h ∈ HTree.handles t := by
+    unfold Forest.subtreeHandles at hm
+    rw [hg] at hm
+    exact hm
+  have e := get?_inside_of_subtree nd nd' hg hg' hz
+  have hl : f.isLive h = true := by
+    obtain ⟨anc, o⟩ := Fws.occurs_of_get? hg
+    obtain ⟨q, hq⟩ := Fws.find?_some_of_mem h t hz
+    unfold Forest.isLive
+    rw [o.find_local nd h q hq]
+    rfl
+  have fr := frameAt_of_get?_eq hl e
+  exact ⟨fr.live, fr.value, fr.kids⟩
+
+/-- ⟦C05_frame_general_moved_detach⟧ `detach(n)`: every node of the moved subtree (`n` itself included) keeps its
+    value and its children. -/
+theorem C05_frame_general_moved_detach {f : Forest} (inv : f.Inv) {n : Nat} (hn : f.isLive n = true) {h : Nat}
+    (hm : h ∈ (Forest.XCall.call (.detach n)).movedSubtree f) :
+    (f.detach n).1.isLive h = true ∧ (f.detach n).1.value? h = f.value? h ∧
+    (f.detach n).1.kidHandles h = f.kidHandles h := by
+  obtain ⟨t, hg⟩ := Forest.get_of_live hn
+  exact C05_moved_subtree_intact inv.nodup (Forest.detach_inv inv n).nodup hg (detach_get_moved inv hg) hm
+
+/-- Non-vacuity on `frameWitness`: `detach(u)` (3, with the children 4 5 6 7). -/
+example :
+    let f := frameWitness
+    f.inv = true ∧ (Forest.XCall.call (.detach 3)).movedSubtree f = [3, 4, 5, 6, 7] ∧
+    (f.detach 3).1.kidHandles 3 = [4, 5, 6, 7] ∧ (f.detach 3).1.value? 6 = f.value? 6 := by
   decide +kernel
 
 /-- ⟦C05_reachable_frame_general2_full⟧ … on every store a history of parses and API calls reaches from
